@@ -16,7 +16,7 @@ CLAIMS = {
     "C04": "engine_protocol_docs: for every pair of JSON documents and every option set the lazy machine mkEdit (constant, key/value, string, positional list, EditDistance with its fringe sweep and freed matrix, EditCollection, WeightedBipartiteMatcher + MultiSetEdit) obeys the protocol — intervals nested, always containing the final cost, a decreasing measure, False only on a single value, strict shrinking for an observer who read bounds() — for every make_distinct oracle and every full-size admissible solver answer (OrcFull); per-class theorems editDistance_protocol, editCollection_protocol, fixedLen_protocol, matcher_protocol, multiset_protocol; mkEdit_initial_bounds. Hypotheses: distinct keys; with dict strategy none additionally Tree.fkOK on the second document (outside it the property is FALSE: finding D24). Finding D21 (duplicate multiset elements, library API only). XML / CSV-specific edit classes and IterativeTighteningSearch-based PossibleEdits are outside the L3 model (search: see C17).",
     "C05": "no_internal_error_docs, history_independent_docs, mkEdit_refines_L2: after ANY sequence of the six public operations, under either setting of quiet, no internal error occurs and finishing yields exactly L2's script and cost (toD (diffDocs o orc f t)) — for every pair of JSON documents and option set, same hypotheses as C04 (distinct keys, OrcFull, fkOK under strategy none). Colour/status settings beyond quiet are exercised by the history stream, not modelled.",
     "C06": "project_from / project_to / marks_iff on the model of the JSON colour rendering: both projections of the rendered (character, mark) sequence tokenise to the respective document up to a permutation of the members of objects (ValPerm: lists element-wise in order, atoms equal; project_*_tokens: same multiset of tokens), and marks appear iff the documents differ — unconditional for documents with distinct keys. The statement uses a tokenizer, not a JSON parser, and the ANSI-mark rendering only; the plain-text (~~ ++) rendering and the real parser are exercised by the monitor.",
-    "C07": "MOSTLY RUNTIME: the only Lean obligation is a tripwire (set_sites_reviewed: the regenerated table of every iteration over a set/frozenset in the package is contained in a reviewed list, so a new hash-ordered loop breaks the build). Determinism across hash seeds and processes, absence of hidden state across invocations and non-mutation of inputs are decided on the real code by the determinism stream (PYTHONHASHSEED 0-3 / 0-8, reversed order, diff-of-diff-result snapshot). Key-order independence of the model is C08.",
+    "C07": "MOSTLY RUNTIME: the only Lean obligations are two tripwires over tables regenerated from the source by ast walks: set_sites_reviewed (every iteration over a set/frozenset) and nondet_sites_reviewed (every use of the clock, randomness, np.empty, the environment, id(), sys.setrecursionlimit-style interpreter settings and `global` statements) must be contained in reviewed lists, so a new hash-ordered loop or a new source of run-to-run variation breaks the build. Determinism across hash seeds and processes, absence of hidden state across invocations and non-mutation of inputs are decided on the real code by the determinism stream (PYTHONHASHSEED 0-3 / 0-8, reversed order, diff-of-diff-result snapshot). Key-order independence of the model is C08.",
     "C08": "FULL on the model: build_perm_dict / dict_perm_script (permuting keys at any depth yields the identical tree and script under the auto and match strategies), perm_equal / perm_cost_zero (every strategy), fdict_perm_cost (strategy none, any depth) and fdict_perm_pairing (strategy none, ROOT mapping only), list_swap_positive.",
     "C09": "THIN: in the model the JSON, JSON5 and YAML loaders are the same function (build) and plist adds a wrapper, so same_data_zero / third_doc_independent are consequences of C02 (equal trees cost 0) plus that modelling decision; the real content is (i) the ASSUMPTION, checked on every run, that the four real parsers return equal Python objects, (ii) the exact correspondence of the 4x4 zero-cost matrix and exit statuses incl. explicit type flags, and (iii) the witness theorem for finding D10 (plist on the to-side is a Replace).",
     "C10": "FULL on the model at every nesting level: none_no_cross_key, none_no_multiset, auto_same_key_paired, no_list_edits_positional, no_list_edits_same_length_positional (lists and mappings built by build_tree; the list options never reach XML children or CSV rows, which is stated). The stream exercises all 16 combinations of the four build options.",
